@@ -120,6 +120,7 @@ class Patterns:
     whitespaces = re.compile(r'[^\S\xa0]+')  # include ASCII 160 (non-breaking space)
     normalize = LazyPattern(r'[^\S\xa0]')
     ncname = LazyPattern(r'^[^\d\W][\w.\-\u00B7\u0300-\u036F\u203F\u2040]*$')
+    numeric_literal = LazyPattern(r'^[+-]?(?:[0-9]+(?:\.[0-9]*)?|\.[0-9]+)(?:[Ee][+-]?[0-9]+)?$')
     extended_qname = LazyPattern(
         r'^(?:Q{(?P<namespace>[^}]+)}|'
         r'(?P<prefix>[^\d\W][\w\-.\u00B7\u0300-\u036F\u0387\u06DD\u06DE\u203F\u2040]*):)?'
@@ -287,7 +288,7 @@ def get_double(value: FloatArgType, xsd_version: str | None = None) -> float:
         if value in NUMERIC_INF_OR_NAN and (xsd_version != '1.0' or value != '+INF'):
             if value == 'NaN':
                 return math.nan  # for NaN use the predefined instance to keep identity
-        elif value.lower() in INVALID_NUMERIC:
+        elif Patterns.numeric_literal.match(value) is None:
             raise ValueError(f'invalid value {value!r} for xs:double/xs:float')
     elif math.isnan(value):
         return math.nan
